@@ -1,10 +1,12 @@
 #!/venv/bin/python
 """Handling of seeded property-breaking changes (never committed to /repo).
 
-  tools/seeded.py confirm <src_dir> <id> <property> [--tests <pytest args>]
+  tools/seeded.py confirm <src_dir> <id> <property> [--tests <pytest args>] [--preserving]
         src_dir holds patch.diff, demo.py, note.md.  In a fresh scratch worktree of /repo's HEAD: demo must exit 0 on the
         clean tree and non-zero with the patch; the baseline test-suite must give the same pass/fail set with the patch.
-        On success the files are stored as /verif/seeded/<id>/ with meta.json.
+        On success the files are stored as /verif/seeded/<id>/ with meta.json.  With --preserving the change is one that
+        keeps the property true (meta kind "preserving", key breaks_property names the property it was written AGAINST): the
+        demo must exit 0 on both trees; every check is expected to stay silent on it.
   tools/seeded.py run <id> [<check> ...] [--tier quick]
         applies seeded/<id>/patch.diff to /repo's working tree, runs the given checks (default: the property's own),
         records exit status and VIOLATION lines in meta.json["runs"], and ALWAYS restores /repo (git checkout -- .).
@@ -37,7 +39,7 @@ def test_summary(wt, args):
     return r.stdout.strip()
 
 
-def confirm(src, sid, prop, tests="tests"):
+def confirm(src, sid, prop, tests="tests", preserving=False):
     wt = tempfile.mkdtemp(prefix="seedchk_", dir="/tmp")
     os.rmdir(wt)
     try:
@@ -53,7 +55,7 @@ def confirm(src, sid, prop, tests="tests"):
         env["NUMBA_CACHE_DIR"] = os.path.join(wt, ".nbcache_patched")
         r1 = sh([PY, demo], cwd=wt, env=env)
         patched = test_summary(wt, tests)
-        ok = r0.returncode == 0 and r1.returncode != 0 and base == patched
+        ok = r0.returncode == 0 and (r1.returncode == 0 if preserving else r1.returncode != 0) and base == patched
         print("demo clean rc=%d, patched rc=%d; tests identical: %s" % (r0.returncode, r1.returncode, base == patched))
         if base != patched:
             print("--- clean\n%s\n--- patched\n%s" % (base, patched))
@@ -68,7 +70,8 @@ def confirm(src, sid, prop, tests="tests"):
                 shutil.copy(os.path.join(src, f), os.path.join(dst, f))
         head = sh(["git", "-C", REPO, "rev-parse", "--short", "HEAD"]).stdout.strip()
         note = open(os.path.join(src, "note.md")).read() if os.path.exists(os.path.join(src, "note.md")) else ""
-        meta = {"id": sid, "breaks_property": prop, "repo_head_when_confirmed": head,
+        meta = {"id": sid, "breaks_property": prop, "kind": "preserving" if preserving else "breaking",
+                "repo_head_when_confirmed": head,
                 "needs_to_manifest": note.strip()[:1500],
                 "confirmation": {"demo_clean_rc": r0.returncode, "demo_patched_rc": r1.returncode,
                                  "demo_patched_tail": (r1.stdout + r1.stderr)[-600:],
@@ -122,12 +125,27 @@ def table():
         if not os.path.exists(mp):
             continue
         m = json.load(open(mp))
+        if m.get("kind") == "preserving":
+            continue
         caught = [r["check"] + ("/" + r["tier"][0]) for r in m["runs"] if r["exit"] == 1]
         missed = [r["check"] + ("/" + r["tier"][0]) for r in m["runs"] if r["exit"] == 0]
         first = m["needs_to_manifest"].splitlines()[0][:110] if m["needs_to_manifest"] else ""
         rows.append("| %s | %s | %s | %s | %s |" % (sid, m["breaks_property"], ", ".join(caught) or "-", ", ".join(missed) or "-", first.replace("|", "/")))
     print("| seeded change | property | caught by | not caught by | what it is |\n|---|---|---|---|---|")
     print("\n".join(rows))
+    rows = []
+    for sid in sorted(os.listdir(SEEDED)):
+        mp = os.path.join(SEEDED, sid, "meta.json")
+        m = json.load(open(mp)) if os.path.exists(mp) else {}
+        if m.get("kind") != "preserving":
+            continue
+        silent = [r["check"] + ("/" + r["tier"][0]) for r in m["runs"] if r["exit"] == 0]
+        alarm = [r["check"] + ("/" + r["tier"][0]) for r in m["runs"] if r["exit"] != 0]
+        first = m["needs_to_manifest"].splitlines()[0][:110] if m["needs_to_manifest"] else ""
+        rows.append("| %s | %s | %s | %s | %s |" % (sid, m["breaks_property"], ", ".join(silent) or "-", ", ".join(alarm) or "-", first.replace("|", "/")))
+    if rows:
+        print("\n| property-preserving change | property | silent | alarm | what it is |\n|---|---|---|---|---|")
+        print("\n".join(rows))
 
 
 if __name__ == "__main__":
@@ -136,7 +154,7 @@ if __name__ == "__main__":
         tests = "tests"
         if "--tests" in a:
             tests = a[a.index("--tests") + 1]
-        sys.exit(confirm(a[1], a[2], a[3], tests))
+        sys.exit(confirm(a[1], a[2], a[3], tests, preserving="--preserving" in a))
     if a[0] == "run":
         tier = "quick"
         if "--tier" in a:
